@@ -1,2 +1,40 @@
-"""Checks that are not plain progsim runs register a handler here: HANDLERS[prop](prop, tier, seed, core) -> merged dict"""
+"""Checks that are not plain progsim runs register a handler here:
+HANDLERS[prop](prop, tier, seed, core) -> merged dict (see check: merge())"""
+import os, shutil
+
 HANDLERS = {}
+
+
+def _work(core, prop):
+    work = os.path.join(core.WORK, prop)
+    shutil.rmtree(work, ignore_errors=True)
+    os.makedirs(work, exist_ok=True)
+    return work
+
+
+def _seed(seed, n):
+    return (seed * 1000003 + n * 7919) % (2 ** 31)
+
+
+def c12(prop, tier, seed, core):
+    work = _work(core, prop)
+    shards, scale, secs = (4, 1, 20) if tier == "quick" else (16, 12, 150)
+    jobs = []
+    for n in range(shards):
+        out = os.path.join(work, "shard-%02d.json" % n)
+        jobs.append(("codec#%d" % n, [core.binpath("codec"), "--seed", str(_seed(seed, n)), "--scale", str(scale), "--time-limit", str(secs), "--out", out], out))
+    res = core.run_shards(prop, jobs, secs * 3 + 60)
+    classes = {}
+    for _, _, doc, _ in res:
+        if doc:
+            core.add_counts(classes, doc.get("classes", {}))
+    m = core.merge(prop, tier, seed, res, core.known_for(prop), engine="codec", extra_cov={"input_classes": classes})
+    m["rule"] = ("contexts: all combinations of 12x12 boundary ids x both flags plus seeded random ids with random leading-zero runs; text: complete "
+                 "product of 10 version shapes x 23 trace-field shapes x 23 span-field shapes x ~290 flag shapes (all 256 byte values), field counts "
+                 "0-6, seeded 1-3 edit mutations of valid strings, random strings; every input is classified by an independent char-level reference "
+                 "(must-be-None / well-formed with expected values / unspecified for a leading '+'). evaluations = codec calls checked; distinct "
+                 "non-trivial = distinct inputs that are not plain canonical strings, plus distinct encodings.")
+    return m
+
+
+HANDLERS["C12"] = c12
